@@ -380,6 +380,25 @@ theorem kill_is_plain_completion (st : State) :
     step st .hookKill = st ∨ step st .hookKill = step (applyKill st) (.hookDone none) :=
   step_hookKill st
 
+/-- sharper form (audit round 6): WHICH disjunct holds is decided by the state - the completion is ignored exactly when
+    no hook is pending (layer not started, nothing pending, or an OpenConnection pending); with a hook pending the kill
+    IS the plain completion of that hook on the flow marked killed -/
+theorem kill_is_plain_completion_cases (st : State) :
+    ((st.phase = .idle ∨ st.pending = .none ∨ st.pending = .connect) → step st .hookKill = st) ∧
+    (st.phase ≠ .idle → st.pending ≠ .none → st.pending ≠ .connect →
+      step st .hookKill = step (applyKill st) (.hookDone none)) := by
+  have hf := applyKill_fields st
+  cases hph : st.phase with
+  | idle => exact ⟨fun _ => by unfold step; simp [hph], fun h => absurd rfl h⟩
+  | _ =>
+    cases hp : st.pending with
+    | none => exact ⟨fun _ => by unfold step; simp [hph, hp], fun _ h => absurd rfl h⟩
+    | connect => exact ⟨fun _ => by unfold step; simp [hph, hp], fun _ _ h => absurd rfl h⟩
+    | startHook => exact ⟨fun h => by simp at h, fun _ _ _ => by unfold step; simp [hph, hp, hf]⟩
+    | errorHook => exact ⟨fun h => by simp at h, fun _ _ _ => by unfold step; simp [hph, hp, hf]⟩
+    | endHook => exact ⟨fun h => by simp at h, fun _ _ _ => by unfold step; simp [hph, hp, hf]⟩
+    | msgHook to m => exact ⟨fun h => by simp at h, fun _ _ _ => by unfold step; simp [hph, hp, hf, editMsg]⟩
+
 /-- the end/error accounting with kills and dead sockets: still exactly one once the flow is over, provided the
     sockets are not dead (with a dead socket the missing `ConnectionClosed` is owed by the environment) -/
 example : (run (init .tcp true true) [.start, .hookKill, .data .client [1], .hookKill, .closed .client false,
